@@ -92,9 +92,9 @@ Print Assumptions C09_own_nonce_and_index.
    (private constants, bounds, unit factors; the files are SiteMap.files_C09) are today the ones the
    model was written against. Gen/Sites.v num_literals is regenerated from /repo on every run; a
    changed, added or removed number in a modelled function breaks this obligation ---- *)
-Require RV.Gen.Sites RV.Model.SiteMap RV.Proofs.SitesFacts.
+Require RV.Gen.Sites RV.Model.SiteMap RV.Proofs.SitesLits.
 Theorem C09_literals_reviewed : RV.Model.SiteMap.literals_ok RV.Model.SiteMap.files_C09.
-Proof. apply RV.Proofs.SitesFacts.literals_okb_sound. vm_compute. reflexivity. Qed.
+Proof. apply RV.Proofs.SitesLits.literals_okb_sound. vm_compute. reflexivity. Qed.
 Print Assumptions C09_literals_reviewed.
 
 (* ---- Responder::make_response AS TRANSLATED FROM THE SOURCE on this run: which six fields a reply
